@@ -109,23 +109,7 @@ class Taps(object):
         rec.clock = clock
 
         real_solver_helper = core._solver_helper
-        real_spsolve = real_sp.linalg.spsolve
         state = {'singular': False}
-
-        class _LinAlg(object):
-            MatrixRankWarning = real_sp.linalg.MatrixRankWarning
-
-            @staticmethod
-            def spsolve(*a, **k):
-                if state['singular']:
-                    state['singular'] = False
-                    rec.fire('solver.singular')
-                    state['fired'] = True
-                    raise real_sp.linalg.MatrixRankWarning('Matrix is exactly singular')
-                return real_spsolve(*a, **k)
-
-        class _SP(object):
-            linalg = _LinAlg
 
         def solver_helper(model, solver, solver_options):
             rec.n_solver_calls += 1
@@ -158,9 +142,23 @@ class Taps(object):
             elif kind == 'timelimit':
                 clock.jump_pending = True
             elif kind == 'singular':
-                state['singular'] = True
-            status, msg, iters = real_solver_helper(model, solver, opts)
-            state['singular'] = False
+                # an exactly singular Jacobian for the whole of this solve: the first equation loses its row.  The fault is in the matrix, not
+                # in the linear-algebra routine, so whichever routine the solver calls has to cope with it
+                real_jac = model.evaluate_jacobian
+
+                def singular_jacobian(x=None):
+                    J = real_jac(x).tolil()
+                    J[0, :] = 0.0
+                    if not state['fired']:
+                        rec.fire('solver.singular')
+                        state['fired'] = True
+                    return J.tocsr()
+                model.evaluate_jacobian = singular_jacobian
+            try:
+                status, msg, iters = real_solver_helper(model, solver, opts)
+            finally:
+                if kind == 'singular':
+                    del model.evaluate_jacobian
             clock.jump_pending = False
             status = int(status)
             rnorm = None
@@ -221,7 +219,6 @@ class Taps(object):
 
         self._swap(core, '_solver_helper', solver_helper)
         self._swap(solvers, 'time', clock)
-        self._swap(solvers, 'sp', _SP)
         self._swap(hyd, 'save_results', save_results)
         self._swap(hyd, 'update_network_previous_values', update_network_previous_values)
         self._swap(hyd, 'update_tank_heads', update_tank_heads)
